@@ -58,6 +58,7 @@ class World:
         self.lits = {}
         self.counter = 0
         self.cls_consts = {}
+        self.sentinels = {}
 
     def lit(self, s):
         if s is None:
@@ -65,6 +66,12 @@ class World:
         if s not in self.lits:
             self.lits[s] = z3.Const('lit_%d_%s' % (len(self.lits), ''.join(ch if ch.isalnum() else '_' for ch in s)[:24]), Str)
         return self.lits[s]
+
+    def sentinel(self, name):
+        """module-level `X = object()` sentinel, compared by identity only"""
+        if name not in self.sentinels:
+            self.sentinels[name] = z3.Const('sentinel_' + name.replace('.', '_'), Str)
+        return self.sentinels[name]
 
     def clsconst(self, name):
         if name not in self.cls_consts:
@@ -81,18 +88,24 @@ class World:
 
     def global_axioms(self):
         ax = []
+        base = list(self.lits.items())
+        idl = [(t, self.lit(s + 'ID')) for s, t in base if not s.endswith('ID')]
         ls = list(self.lits.items())
-        terms = [t for _, t in ls] + [none_s]
+        terms = [t for _, t in ls] + [none_s] + list(self.sentinels.values())
         if len(terms) > 1:
             ax.append(z3.Distinct(*terms))
         # concrete facts about literals (computed with CPython)
+        for t, t2 in idl:
+            ax.append(idtag(t) == t2)
         for s, t in ls:
-            ax.append(idtag(t) == self.lit_noreg(s + 'ID'))
             ax.append(s_truthy(t) == (s != ''))
             st = s.strip()
             if st in self.lits:
                 ax.append(s_strip(t) == self.lits[st])
         ax.append(z3.Not(s_truthy(none_s)))
+        ax.append(z3.Not(is_int(none_s)))
+        ax.append(z3.Not(is_float(none_s)))
+        ax.append(z3.Not(is_dt(none_s)))
         cs = list(self.cls_consts.values())
         if len(cs) > 1:
             ax.append(z3.Distinct(*cs))
@@ -112,6 +125,9 @@ class World:
                                                             z3.Not(is_msg(newnode(e))))),
                             patterns=[newnode(e)]))
         ax.append(born(null) == 0)
+        for sv in self.sentinels.values():
+            # a sentinel is an object(), never the text of an element
+            ax.append(z3.ForAll([u], text(u) != sv, patterns=[text(u)]))
         return ax
 
     def lit_noreg(self, s):
@@ -120,12 +136,7 @@ class World:
         return self.lit(s)
 
     def all_global_axioms(self):
-        # fixpoint because idtag() facts register new literals
-        n = -1
-        while n != len(self.lits):
-            n = len(self.lits)
-            ax = self.global_axioms()
-        return ax
+        return self.global_axioms()
 
 
 _ver = [0]
@@ -244,6 +255,11 @@ class Heap:
                       patterns=[H2.at(q, i)]),
         ]
         ax += self._frame_find(H2, lambda q: q != P)
+        # derived lemma (first child with tag t): unaffected unless x itself was that child
+        t = z3.Const('t!r', Str)
+        ax.append(z3.ForAll([t], z3.Implies(H.find(P, t) != x, H2.find(P, t) == H.find(P, t)), patterns=[H2.find(P, t)]))
+        ax.append(z3.ForAll([t], z3.Implies(H.tag(x) != t, H2.falen(P, t) == H.falen(P, t)), patterns=[H2.falen(P, t)]))
+        ax.append(z3.ForAll([t], z3.Implies(z3.And(H.tag(x) == t, H.mem(P, x)), H2.falen(P, t) == H.falen(P, t) - 1), patterns=[H2.falen(P, t)]))
         return H2, ax
 
     def insert(self, P, idx, x):
@@ -266,6 +282,10 @@ class Heap:
                       patterns=[H2.at(q, i)]),
         ]
         ax += self._frame_find(H2, lambda q: q != P)
+        t = z3.Const('t!i2', Str)
+        ax.append(z3.ForAll([t], z3.Implies(H.tag(x) != t, H2.find(P, t) == H.find(P, t)), patterns=[H2.find(P, t)]))
+        ax.append(z3.ForAll([t], z3.Implies(H.tag(x) != t, H2.falen(P, t) == H.falen(P, t)), patterns=[H2.falen(P, t)]))
+        ax.append(z3.ForAll([t], z3.Implies(H.tag(x) == t, H2.falen(P, t) == H.falen(P, t) + 1), patterns=[H2.falen(P, t)]))
         return H2, ax
 
     def set_tag(self, X, t):
